@@ -8,6 +8,7 @@ import Z80.Gen.All
 import Z80.Spec.Koron
 import Z80.Spec.Interrupt
 import Z80.Spec.KoronIM0
+import Z80.Proofs.RunLoop
 
 open Z80 Z80.Proto
 
@@ -19,7 +20,35 @@ def specStep : M Unit := fun s =>
     if !Z80.Spec.isNMI i && s.IFF1 && s.IM == 0 && !i.Data.isEmpty && !Z80.Spec.im0Defined i.Data then .panic "skip"
     else Z80.Spec.step Z80.Spec.Impl.koron s
 
-partial def loop (h : IO.FS.Stream) (out : IO.FS.Stream) (step : M Unit) : IO Unit := do
+/-- hand-written reference of `Run` over a given step function: discard HALT, then Step until the stop rule holds
+    (breakpoint before HALT); `none` = fuel exhausted -/
+def refRun (step : M Unit) (fuel : Nat) (s : St) : Option (String × St) :=
+  let rec go : Nat → St → Option (String × St)
+    | 0, _ => none
+    | f+1, s =>
+      match step s with
+      | .panic w => some ("panic:" ++ w, s)
+      | .ok _ t => if bpHas t.BreakPoints t.PC then some ("bp", t) else if t.HALT then some ("nil", t) else go f t
+  go fuel { s with HALT := false }
+
+/-- `Run` of the GENERATED model (never cancelled) -/
+def genRun (fuel : Nat) (s : St) : Option (String × St) :=
+  match Z80.run (fun _ => false) fuel s with
+  | .running => none
+  | .panicked => some ("panic", s)
+  | .done .nil t => some ("nil", t)
+  | .done .errBreakPoint t => some ("bp", t)
+  | .done .ctxErr t => some ("ctx", t)
+
+/-- N consecutive Run calls -/
+def runCalls (run1 : St → Option (String × St)) : Nat → St → String → Option (String × St)
+  | 0, s, codes => some (codes, s)
+  | n+1, s, codes =>
+    match run1 s with
+    | none => none
+    | some (c, t) => runCalls run1 n t (codes ++ " " ++ c)
+
+partial def loop (h : IO.FS.Stream) (out : IO.FS.Stream) (step : M Unit) (isGen : Bool := false) : IO Unit := do
   let line ← h.getLine
   if line.isEmpty then return ()
   let line := line.trimAsciiEnd.toString
@@ -27,10 +56,16 @@ partial def loop (h : IO.FS.Stream) (out : IO.FS.Stream) (step : M Unit) : IO Un
   match parseVec line with
   | none => out.putStrLn ("? bad-vector " ++ line)
   | some v =>
+    if v.kind == "run" then
+      let run1 := if isGen then genRun 100000 else refRun step 100000
+      match runCalls run1 (max v.steps 1) v.st "" with
+      | some (codes, s) => out.putStrLn (resultStr v.id s ++ " RUN" ++ codes)
+      | none => out.putStrLn (v.id ++ " running")
+    else
     match runSteps step v with
     | .ok _ s => out.putStrLn (resultStr v.id s)
     | .panic w => out.putStrLn (v.id ++ " panic " ++ w)
-  loop h out step
+  loop h out step isGen
 
 def main (args : List String) : IO Unit := do
   let stdin ← IO.getStdin
@@ -38,4 +73,4 @@ def main (args : List String) : IO Unit := do
   match args with
   | ["spec"] => loop stdin stdout specStep
   | ["kf"] => loop stdin stdout (Z80.Spec.stepKF Z80.Spec.Impl.koron)
-  | _ => loop stdin stdout Z80.Gen.Step
+  | _ => loop stdin stdout Z80.Gen.Step true
